@@ -392,6 +392,29 @@ def node_rules(btext, utext):
     return store_l, store_r, vr, un_store, ur[False], ur[True]
 
 
+def noalias_rules(repo):
+    """struct NoAlias (noalias.h): the template arguments with which it forwards to its argument"""
+    text = strip_comments(open(os.path.join(repo, "include/adept/noalias.h")).read())
+    m = re.search(r"struct\s+NoAlias\b", text)
+    if not m:
+        die("struct NoAlias not found")
+    body, _ = block_after(text, m.start())
+    out = []
+    for fn, callee in (("value_at_location_store_", "value_at_location_store_"), ("value_stored_", "value_stored_"), ("calc_gradient_", "calc_gradient_")):
+        defs = functions(body, fn)
+        want = 2 if fn == "calc_gradient_" else 1
+        if len(defs) != want:
+            die("NoAlias::%s: %d definitions, expected %d" % (fn, len(defs), want))
+        for params, inner in defs:
+            c = re.search(r"arg\s*\.template\s+%s\s*<([^>]*)>" % callee, inner)
+            if not c:
+                die("NoAlias::%s does not forward to arg.%s" % (fn, callee))
+            pr = Parser(tokens("<" + c.group(1) + ">", "NoAlias::" + fn), "NoAlias::" + fn)
+            a, sx = pr.tmpl_pair()
+            out.append("(%s, %s)" % (coq_a(a, fn), coq_s(sx, fn)))
+    return out
+
+
 def unary_table(utext):
     """ADEPT_DEF_UNARY_FUNC / _OP lines active in the default configuration (C++11, no ADEPT_FAST_EXPONENTIAL)"""
     out, seen = [], set()
@@ -454,6 +477,8 @@ def main():
     out.append("Definition policy_of (k : bkind) : policy :=\n  match k with %s end." % " | ".join("%s => pol_%s" % (k, n) for n, k in names))
     sl, sr_, vr, us, ur, urm = node_rules(btext, utext)
     out.append("Definition nodes : node_rules := mkNode %s %s %s %s\n  %s\n  %s." % (sl, sr_, vr, us, ur, urm))
+    out.append("(* noalias(e): template arguments of value_at_location_store_, value_stored_, calc_gradient_, calc_gradient_(multiplier) *)")
+    out.append("Definition noalias_forwards : list (aidx * sidx) := [%s]." % "; ".join(noalias_rules(REPO)))
     tab = unary_table(utext)
     if len(tab) < 30:
         die("only %d unary functions found" % len(tab))
